@@ -49,6 +49,16 @@ impl ScopeStack {
         None
     }
 
+    // the same, ignoring the outermost scope (the program's top-level `let`s)
+    pub fn get_above_top_level(&self, name: &str) -> Option<&TypedExpr> {
+        for scope in self.scopes.iter().skip(1).rev() {
+            if let Some(entry) = scope.get(name) {
+                return entry.as_ref();
+            }
+        }
+        None
+    }
+
     pub fn invalidate(&mut self, name: &str) {
         for scope in self.scopes.iter_mut().rev() {
             if let Some(entry) = scope.get_mut(name) {
